@@ -63,7 +63,13 @@ pub fn serde(req: &Req) -> R<String> {
 	match req.get("gen")? {
 		"xoshiro" => {
 			let r: Random<Xoshiro256> = match req.opt_list_u64("state")? {
-				Some(st) => serde_json::from_str(&format!("{{\"state\":[{}]}}", join(&st, ","))).map_err(|_| Bad)?,
+				// the state is injected WITHOUT going through the code under test (deserialisation): from_rng copies the source's words
+				Some(st) => {
+					if st.len() != 4 {
+						return Err(Bad);
+					}
+					Xoshiro256::from_rng(&mut urandom::rng::Mock::slice(&st))
+				}
 				None => Xoshiro256::from_seed(req.u64("seed")?),
 			};
 			round(r, &before, &after)
